@@ -79,3 +79,50 @@ func ZZH_C04_report_step() {
 func zzItoa(i int) string {
 	return []string{"0", "1", "2", "3", "4", "5"}[i]
 }
+
+// ZZH_C04_begin_step: Begin on a fresh id records BEGIN or BEGIN_FAILURE; only the
+// interchain contract may call it.
+func ZZH_C04_begin_step() {
+	w := zzNewWorld()
+	w.height = zz.U64("height")
+	t := zz.U64("timeout")
+	failed := zz.Bool("isFailed")
+	id := "chA:s1-chB:s2-1"
+	tm := zzTM(w)
+	out := tm.Begin(id, t, failed)
+	rec, ok := zzRecord(w, id)
+	zz.Assert("C04.begin.ok", out.Ok && ok)
+	zz.Assert("C04.begin.status", (failed && rec.Status == pb.TransactionStatus_BEGIN_FAILURE) || (!failed && rec.Status == pb.TransactionStatus_BEGIN))
+	q := tm.GetStatus(id)
+	zz.Assert("C04.begin.query", q.Ok && zz.EqStr(string(q.Result), zzItoa(int(rec.Status))))
+}
+
+// ZZH_C04_interbxh_step: BeginInterBitXHub on an existing record (notice from the
+// destination hub): only BEGIN -> FAILURE (begin-failure notice) and BEGIN -> ROLLBACK
+// (rollback notice); finals absorbing; anything else rejected without effect.
+func ZZH_C04_interbxh_step() {
+	st := pb.TransactionStatus(zz.I32("status"))
+	zz.Assume(st >= 0)
+	zz.Assume(st <= 5)
+	notice := pb.TransactionStatus(zz.I32("notice"))
+	h := zz.U64("height")
+	w := zzNewWorld()
+	id := "1356:chA:s1-1357:chB:s2-1"
+	rec := pb.TransactionRecord{Status: st, Height: h}
+	b, _ := rec.Marshal()
+	w.put(zzTMAddr, TxInfoKey(id), b)
+	proof := &pb.BxhProof{TxStatus: notice}
+	pb2, _ := proof.Marshal()
+	tm := zzTM(w)
+	snap := w.snapshot()
+	out := tm.BeginInterBitXHub(id, zz.U64("timeout"), pb2, zz.Bool("isFailed"))
+	post, ok := zzRecord(w, id)
+	zz.Assert("C04.interbxh.record-kept", ok)
+	zz.Cover("C04.interbxh.accepted", out.Ok)
+	allowed := (st == pb.TransactionStatus_BEGIN && notice == pb.TransactionStatus_BEGIN_FAILURE && post.Status == pb.TransactionStatus_FAILURE) ||
+		(st == pb.TransactionStatus_BEGIN && notice == pb.TransactionStatus_BEGIN_ROLLBACK && post.Status == pb.TransactionStatus_ROLLBACK)
+	zz.Assert("C04.interbxh.allowed", !out.Ok || allowed)
+	zz.Assert("C04.interbxh.reject-no-effect", out.Ok || w.unchanged(snap))
+	zz.Assert("C04.interbxh.final-absorbing", !zzIsFinal(st) || (!out.Ok && post.Status == st))
+	zz.Assert("C04.interbxh.height-kept", post.Height == h)
+}
